@@ -82,7 +82,25 @@ func Mutate(r *rand.Rand, seed []byte, nodes []*tlvwalk.Node) ([]byte, string) {
 		// so the parser gets past the outer layers and meets the odd element itself
 		var repl []byte
 		cls := ""
-		switch r.Intn(6) {
+		switch r.Intn(8) {
+		case 6, 7:
+			// the element keeps a consistent outer encoding, but what its value starts with - a nested
+			// element some accessor decodes later (a name component inside FinalBlockId, a name inside a
+			// KeyLocator) - is cut short or announces more than the value holds
+			v := append([]byte{}, seed[n.ValOff:n.End]...)
+			switch {
+			case len(v) >= 2 && r.Intn(4) == 0:
+				v = v[:len(v)-1]
+			case len(v) >= 2 && r.Intn(3) == 0:
+				v[1] += byte(1 + r.Intn(5))
+			case len(v) >= 2 && r.Intn(2) == 0:
+				v = []byte{v[0], byte(1 + r.Intn(4))}
+			case len(v) >= 1:
+				v = v[:1]
+			default:
+				v = []byte{0x08}
+			}
+			repl, cls = tlvwalk.TLV(n.Type, v), "c-inner-damaged"
 		case 0:
 			repl, cls = tlvwalk.TLV(n.Type, nil), "c-empty-value"
 		case 1:
@@ -236,6 +254,33 @@ func Reserialize(seed []byte, nodes []*tlvwalk.Node, target *tlvwalk.Node, repl 
 	}
 	if pos < len(seed) {
 		out = append(out, seed[pos:]...)
+	}
+	return out
+}
+
+// InnerDamage enumerates, for every element with a non-empty value, the inputs in which the
+// element's outer encoding (and every enclosing length) stays consistent while the nested element its
+// value starts with is cut short or announces more than the value holds.
+func InnerDamage(seed []byte, nodes []*tlvwalk.Node) [][]byte {
+	var out [][]byte
+	for _, n := range nodes {
+		v := seed[n.ValOff:n.End]
+		if len(v) == 0 || len(v) > 300 {
+			continue
+		}
+		var vs [][]byte
+		vs = append(vs, append([]byte{}, v[:len(v)-1]...), []byte{v[0]})
+		if len(v) >= 2 {
+			for _, d := range []byte{1, 3, 200} {
+				w := append([]byte{}, v...)
+				w[1] += d
+				vs = append(vs, w)
+			}
+			vs = append(vs, []byte{v[0], 2}, []byte{v[0], 3, v[len(v)-1]}, []byte{v[0], 0xfd})
+		}
+		for _, w := range vs {
+			out = append(out, Reserialize(seed, nodes, n, tlvwalk.TLV(n.Type, w)))
+		}
 	}
 	return out
 }
